@@ -139,6 +139,22 @@ Qed.
 Lemma recycle_child c : recycle (child c) = c.
 Proof. destruct c; reflexivity. Qed.
 
+(* parents and base untouched *)
+Definition same_below (c c' : cow) : Prop :=
+  c_parents c' = c_parents c /\ c_base c' = c_base c.
+Lemma same_below_refl c : same_below c c. Proof. split; reflexivity. Qed.
+Lemma same_below_trans a b c : same_below a b -> same_below b c -> same_below a c.
+Proof. intros [H1 H2] [H3 H4]. split; congruence. Qed.
+
+Lemma recycle_of_child c c1 : same_below (child c) c1 -> recycle c1 = c.
+Proof.
+  intros [Hp Hb]. cbn [child c_parents c_base] in Hp, Hb. unfold recycle. rewrite Hp, Hb. destruct c; reflexivity.
+Qed.
+
+(* a change of the current cow that leaves accounts, txids, leases and the fee counter alone *)
+Definition aux_eq (l l' : layer) : Prop :=
+  l_accts l' = l_accts l /\ l_txids l' = l_txids l /\ l_leases l' = l_leases l /\ l_fees l' = l_fees l.
+
 (* ------------------------------------------------------------------ frame reasoning *)
 (* [R c c'] is any reflexive, transitive relation between the state before and after that
    the account / fee writers respect: "projection f unchanged" (child isolation) or
@@ -152,8 +168,28 @@ Section Frame.
   Hypothesis Hph : forall c a i d, R c (put_holding_delta c a i d).
   Hypothesis Hpp : forall c a i d, R c (put_params_delta c a i d).
   Hypothesis Hcr : forall c i v, R c (set_creatable c i v).
+  Hypothesis Haux : forall c l', aux_eq (c_top c) l' -> R c (set_top c l').
 
   Definition keeps {A} (m : M A) : Prop := forall c, R c (fst (m c)).
+
+  Ltac aux := intro c; apply Haux; repeat split.
+  Lemma keeps_get_appparams a i : keeps (m_get_appparams a i). Proof. intro c. apply Hrefl. Qed.
+  Lemma keeps_get_applocal a i : keeps (m_get_applocal a i). Proof. intro c. apply Hrefl. Qed.
+  Lemma keeps_get_app_creator i : keeps (m_get_app_creator i). Proof. intro c. apply Hrefl. Qed.
+  Lemma keeps_allocated a i g : keeps (m_allocated a i g). Proof. intro c. apply Hrefl. Qed.
+  Lemma keeps_getkey a i g k : keeps (m_getkey a i g k). Proof. intro c. apply Hrefl. Qed.
+  Lemma keeps_ensure_sd a i g act : keeps (m_ensure_sd a i g act). Proof. intro c. apply Hrefl. Qed.
+  Lemma keeps_get_box app name : keeps (m_get_box app name). Proof. intro c. apply Hrefl. Qed.
+  Lemma keeps_put_appparams a i p : keeps (m_put_appparams a i p). Proof. aux. Qed.
+  Lemma keeps_put_applocal a i p : keeps (m_put_applocal a i p). Proof. aux. Qed.
+  Lemma keeps_del_appparams a i : keeps (m_del_appparams a i).
+  Proof. intro c. unfold m_del_appparams. destruct (in_mods c a); [apply Haux; repeat split | apply Hrefl]. Qed.
+  Lemma keeps_del_applocal a i : keeps (m_del_applocal a i).
+  Proof. intro c. unfold m_del_applocal. destruct (in_mods c a); [apply Haux; repeat split | apply Hrefl]. Qed.
+  Lemma keeps_set_app_creatable i v : keeps (m_set_app_creatable i v). Proof. aux. Qed.
+  Lemma keeps_put_sd a i g sd : keeps (m_put_sd a i g sd). Proof. aux. Qed.
+  Lemma keeps_put_box app name v : keeps (m_put_box app name v). Proof. aux. Qed.
+  Lemma keeps_inctxn : keeps m_inctxn. Proof. aux. Qed.
 
   Lemma keeps_ret {A} (a : A) : keeps (ret a). Proof. intro c. apply Hrefl. Qed.
   Lemma keeps_fail {A} e : keeps (@fail A e). Proof. intro c. apply Hrefl. Qed.
@@ -212,6 +248,21 @@ Section Frame.
       | |- keeps (m_del_params _ _) => apply keeps_del_params
       | |- keeps (m_del_holding _ _) => apply keeps_del_holding
       | |- keeps (m_set_creatable _ _) => apply keeps_set_creatable
+      | |- keeps (m_get_appparams _ _) => apply keeps_get_appparams
+      | |- keeps (m_get_applocal _ _) => apply keeps_get_applocal
+      | |- keeps (m_get_app_creator _) => apply keeps_get_app_creator
+      | |- keeps (m_allocated _ _ _) => apply keeps_allocated
+      | |- keeps (m_getkey _ _ _ _) => apply keeps_getkey
+      | |- keeps (m_ensure_sd _ _ _ _) => apply keeps_ensure_sd
+      | |- keeps (m_get_box _ _) => apply keeps_get_box
+      | |- keeps (m_put_appparams _ _ _) => apply keeps_put_appparams
+      | |- keeps (m_put_applocal _ _ _) => apply keeps_put_applocal
+      | |- keeps (m_del_appparams _ _) => apply keeps_del_appparams
+      | |- keeps (m_del_applocal _ _) => apply keeps_del_applocal
+      | |- keeps (m_set_app_creatable _ _) => apply keeps_set_app_creatable
+      | |- keeps (m_put_sd _ _ _ _) => apply keeps_put_sd
+      | |- keeps (m_put_box _ _ _) => apply keeps_put_box
+      | |- keeps m_inctxn => apply keeps_inctxn
       end.
 
   Lemma keeps_move_side E d a amt r : keeps (move_side E d a amt r).
@@ -283,10 +334,100 @@ Section Frame.
   Lemma keeps_asset_freeze s asset acct fr : keeps (asset_freeze s asset acct fr).
   Proof. unfold asset_freeze. kp; first [apply keeps_asset_params | apply keeps_some_or_fail]. Qed.
 
+  Lemma keeps_allocate_app a i g sp : keeps (allocate_app a i g sp).
+  Proof. unfold allocate_app. kp. Qed.
+  Lemma keeps_deallocate_app a i g : keeps (deallocate_app a i g).
+  Proof. unfold deallocate_app. kp. Qed.
+  Lemma keeps_set_key a i g k b : keeps (set_key a i g k b).
+  Proof. unfold set_key. kp. apply keeps_some_or_fail. Qed.
+  Lemma keeps_del_key a i g k : keeps (del_key a i g k).
+  Proof. unfold del_key. kp. apply keeps_some_or_fail. Qed.
+  Lemma keeps_new_box E app n nl sz : keeps (new_box E app n nl sz).
+  Proof. unfold new_box. kp. Qed.
+  Lemma keeps_del_box app n nl : keeps (del_box app n nl).
+  Proof. unfold del_box. kp. destruct a; kp. Qed.
+  Lemma keeps_length_checks E nl sz : keeps (length_checks E nl sz).
+  Proof. unfold length_checks. kp. Qed.
+
+  Lemma keeps_apply_sbody E s b ad ctr : keeps (apply_sbody E s b ad ctr).
+  Proof.
+    unfold apply_sbody. destruct b; kp;
+      first [apply keeps_payment | apply keeps_asset_config | apply keeps_asset_transfer | apply keeps_asset_freeze].
+  Qed.
+
+  Lemma keeps_perform E app fee b : keeps (perform E app fee b).
+  Proof. unfold perform. kp; [apply keeps_take_fee | apply keeps_apply_sbody]. Qed.
+
+  Lemma keeps_perform_group E app g : keeps (perform_group E app g).
+  Proof. induction g as [|[fee b] r IH]; cbn [perform_group]; kp; [apply keeps_perform | exact IH]. Qed.
+
+  Lemma keeps_run_op E app clear op : keeps (run_op E app clear op).
+  Proof.
+    unfold run_op. destruct op.
+    - kp; [apply keeps_length_checks|]. match goal with |- keeps (match ?x with _ => _ end) => destruct x end; kp. apply keeps_new_box.
+    - kp; [apply keeps_length_checks | apply keeps_del_box].
+    - kp; [apply keeps_length_checks | apply keeps_del_box | apply keeps_new_box].
+    - kp; [apply keeps_some_or_fail | apply keeps_set_key].
+    - kp; [apply keeps_some_or_fail | apply keeps_del_key].
+    - apply keeps_set_key.
+    - apply keeps_del_key.
+    - kp. apply keeps_perform_group.
+    - kp.
+  Qed.
+
+  Lemma keeps_run_script E app clear script : keeps (run_script E app clear script).
+  Proof. induction script as [|op r IH]; cbn [run_script]; kp; [apply keeps_run_op | exact IH]. Qed.
+
+  (* StatefulEval: the calf is a child of the current cow; what it did reaches the current cow
+     only through commitToParent *)
+  Hypothesis Hsb : forall E app clear script c, same_below c (fst (run_script E app clear script c)).
+  Hypothesis Hcommit : forall c c1, same_below (child c) c1 -> R (child c) c1 -> R c (commit c1).
+
+  Lemma keeps_stateful_eval E app clear script acc : keeps (stateful_eval E app clear script acc).
+  Proof.
+    intro c. unfold stateful_eval.
+    pose proof (Hsb E app clear script (child c)) as Hs.
+    pose proof (keeps_run_script E app clear script (child c)) as Hr.
+    destruct (run_script E app clear script (child c)) as [c1 [u|e]]; cbn [fst] in *.
+    - destruct acc; cbn [fst].
+      + apply Hcommit; assumption.
+      + rewrite (recycle_of_child _ _ Hs). apply Hrefl.
+    - rewrite (recycle_of_child _ _ Hs). apply Hrefl.
+  Qed.
+
+  Lemma keeps_create_application E cr call ctr : keeps (create_application E cr call ctr).
+  Proof. unfold create_application. kp. apply keeps_allocate_app. Qed.
+  Lemma keeps_optin_application E s app p : keeps (optin_application E s app p).
+  Proof. unfold optin_application. kp. apply keeps_allocate_app. Qed.
+  Lemma keeps_closeout_application s app : keeps (closeout_application s app).
+  Proof. unfold closeout_application. kp; [apply keeps_some_or_fail | apply keeps_deallocate_app]. Qed.
+  Lemma keeps_delete_application E cr app : keeps (delete_application E cr app).
+  Proof. unfold delete_application. kp. apply keeps_deallocate_app. Qed.
+
+  Lemma keeps_application_call E s call ctr : keeps (application_call E s call ctr).
+  Proof.
+    unfold application_call. apply keeps_bind.
+    { destruct (ac_app call =? 0); [apply keeps_create_application | kp]. }
+    intro app. kp.
+    { destruct a; kp. apply keeps_some_or_fail. }
+    destruct (ac_oc call =? 3).
+    - kp; [|apply keeps_closeout_application].
+      destruct a0; [|kp]. intro c.
+      pose proof (keeps_stateful_eval E app true (ac_script call) (ac_accept call) c) as K.
+      destruct (stateful_eval E app true (ac_script call) (ac_accept call) c) as [c1 r]. exact K.
+    - destruct a0 as [[params creator]|]; kp.
+      + apply keeps_optin_application.
+      + apply keeps_stateful_eval.
+      + destruct ((ac_oc call =? 0) || (ac_oc call =? 1)); kp.
+        destruct (ac_oc call =? 2); [apply keeps_closeout_application|].
+        destruct (ac_oc call =? 5); [apply keeps_delete_application | kp].
+  Qed.
+
   Lemma keeps_apply_transaction E tx ctr : keeps (apply_transaction E tx ctr).
   Proof.
     unfold apply_transaction. kp; [apply keeps_take_fee | apply keeps_rekey |].
     destruct (t_body tx); kp;
-      first [apply keeps_payment | apply keeps_keyreg | apply keeps_asset_config | apply keeps_asset_transfer | apply keeps_asset_freeze].
+      first [apply keeps_application_call | apply keeps_payment | apply keeps_keyreg | apply keeps_asset_config
+            | apply keeps_asset_transfer | apply keeps_asset_freeze].
   Qed.
 End Frame.
